@@ -12,7 +12,7 @@ GO=${VERIF_GO:-go1.26.8}
 cp "$REPO/go.mod" "$OUT/go.mod"
 cp "$REPO/go.sum" "$OUT/go.sum"
 python3 - "$VERIF" "$REPO" "$OUT" <<'PY'
-import json, os, re, shutil, sys
+import json, os, re, shutil, subprocess, sys
 verif, repo, out = sys.argv[1:4]
 rep = {}
 for f in sorted(os.listdir(os.path.join(verif, "sim"))):
@@ -20,10 +20,12 @@ for f in sorted(os.listdir(os.path.join(verif, "sim"))):
         rep[os.path.join(repo, "internal/verifsim", f)] = os.path.join(verif, "sim", f)
 for f in sorted(os.listdir(os.path.join(verif, "sim", "vsync"))):
     if f.endswith(".go"):
-        rep[os.path.join(repo, "internal/verifsim/vsync", f)] = os.path.join(verif, "sim", "vsync", f)
+        rep[os.path.join(repo, "pkg/verifvsync", f)] = os.path.join(verif, "sim", "vsync", f)
 # Source rewrite (simulated build only, /repo is not touched): taskctl's own sync.Mutex / RWMutex /
 # Once become channel-based equivalents, so that a goroutine waiting for a lock is durably
 # blocked in the synctest bubble (see sim/vsync/vsync.go). VERIF_NO_VSYNC=1 disables it.
+# (the package lives outside internal/ so that the rewritten third-party spinner can import it too)
+VSYNC_IMPORT = 'vsync "github.com/taskctl/taskctl/pkg/verifvsync"'
 rw = os.path.join(out, "rewrite")
 shutil.rmtree(rw, ignore_errors=True)
 nrw = 0
@@ -33,9 +35,10 @@ if os.environ.get("VERIF_NO_VSYNC") != "1":
     norder = 0
     fn_pat = re.compile(r"^func (\((\w+ )?\*?\w+\) )?(\w+)\([^\n]*\{[ \t]*\n", re.M)
     npre = 0
+    nwait = 0
     for top in ("pkg", "internal", "cmd"):
         for dp, dn, fn in os.walk(os.path.join(repo, top)):
-            if "verifsim" in dp:
+            if "verifsim" in dp or "verifvsync" in dp:
                 continue
             for f in fn:
                 if not f.endswith(".go") or f.endswith("_test.go"):
@@ -49,6 +52,12 @@ if os.environ.get("VERIF_NO_VSYNC") != "1":
                     # (3) every visit of a stage by a scheduling loop is a (normally inactive) yield point
                     new = re.sub(r"(for _, (\w+) := range verifNodes\(\w+\.Nodes\(\)\) \{\n)", r'\1verifYield("sched-visit", \2)\n', new)
                 uses_vsync = False
+                # (5) cmd/taskctl's cancel listeners (`<-cancel` then Cancel): which of them acts first, and
+                # when, relative to the run they cancel, becomes a decision of the simulator
+                if top == "cmd" and re.search(r"^\t+<-cancel$", new, re.M):
+                    new, nwp = re.subn(r"^(\t+)<-cancel$", r'\1vsync.WaitPoint(cancel, "%s")' % f[:-3], new, flags=re.M)
+                    nwait += nwp
+                    uses_vsync = True
                 if pat.search(new):
                     new = pat.sub(r"vsync.\1", new)
                     uses_vsync = True
@@ -68,7 +77,7 @@ if os.environ.get("VERIF_NO_VSYNC") != "1":
                         new = new2
                         uses_vsync = True
                 if uses_vsync:
-                    imp = 'vsync "github.com/taskctl/taskctl/internal/verifsim/vsync"'
+                    imp = VSYNC_IMPORT
                     if re.search(r"^import \(", new, re.M):
                         new = re.sub(r"^import \(", "import (\n\t" + imp, new, count=1, flags=re.M)
                     elif re.search(r'^import "[^"]+"', new, re.M):
@@ -82,10 +91,42 @@ if os.environ.get("VERIF_NO_VSYNC") != "1":
                 open(dst, "w").write(new)
                 rep[os.path.join(dp, f)] = dst
                 nrw += 1
+    # (6) the third-party spinner behind the cockpit format takes part in the simulation: its lock
+    # becomes a vsync lock (a goroutine waiting for it is durably blocked, so a lock cycle between
+    # the cockpit and the spinner is seen as a deadlock instead of freezing the bubble) and its
+    # function entries are preemption points
+    nspin = 0
+    modcache = subprocess.run([os.environ.get("VERIF_GO", "go1.26.8"), "env", "GOMODCACHE"], stdout=subprocess.PIPE, text=True).stdout.strip()
+    m = re.search(r"^\s*github.com/briandowns/spinner (\S+)", open(os.path.join(repo, "go.mod")).read(), re.M)
+    if m and modcache and os.environ.get("VERIF_NO_SPINNER") != "1":
+        spdir = os.path.join(modcache, "github.com/briandowns/spinner@" + m.group(1))
+        sp = os.path.join(spdir, "spinner.go")
+        if os.path.exists(sp):
+            src = open(sp).read()
+            new = pat.sub(r"vsync.\1", src)
+            if os.environ.get("VERIF_NO_PREEMPT") != "1":
+                def addsp(mm):
+                    return mm.group(0) + '\tvsync.Preempt("spinner.%s")\n' % mm.group(3)
+                new = fn_pat.sub(addsp, new)
+            new += "\n// keeps both imports in use after the rewrite\nvar _ sync.Locker = (*vsync.Mutex)(nil)\n"
+            new = re.sub(r"^import \(", "import (\n\t" + VSYNC_IMPORT, new, count=1, flags=re.M)
+            if new != src:
+                # files of the module cache cannot be overlaid: the build's go.mod copy replaces the
+                # module by a rewritten copy of it
+                cp = os.path.join(out, "third_party", "spinner")
+                shutil.rmtree(cp, ignore_errors=True)
+                os.makedirs(cp)
+                for f in os.listdir(spdir):
+                    if f.endswith(".go") and not f.endswith("_test.go") or f in ("go.mod", "LICENSE"):
+                        shutil.copyfile(os.path.join(spdir, f), os.path.join(cp, f))
+                open(os.path.join(cp, "spinner.go"), "w").write(new)
+                with open(os.path.join(out, "go.mod"), "a") as gm:
+                    gm.write("\nreplace github.com/briandowns/spinner => %s\n" % cp)
+                nspin = 1
 open(os.path.join(out, "rewritten_files"), "w").write(str(nrw))
 gen = os.path.join(out, "gen")
 os.makedirs(gen, exist_ok=True)
-open(os.path.join(gen, "vsync_flag.go"), "w").write("package verifsim\n\n// generated by bin/build.sh: whether taskctl's sync primitives were rewritten to vsync in this build\nconst vsyncActive = %s\n\nconst rewrittenFiles = %d\n\n// number of `range g.Nodes()` loops of pkg/scheduler rewritten to the seeded visiting order\nconst orderedLoops = %d\n\n// number of function entries that got a preemption point\nconst preemptPoints = %d\n" % ("true" if nrw > 0 else "false", nrw, norder if os.environ.get("VERIF_NO_VSYNC") != "1" else 0, npre if os.environ.get("VERIF_NO_VSYNC") != "1" else 0))
+open(os.path.join(gen, "vsync_flag.go"), "w").write("package verifsim\n\n// generated by bin/build.sh: whether taskctl's sync primitives were rewritten to vsync in this build\nconst vsyncActive = %s\n\nconst rewrittenFiles = %d\n\n// number of `range g.Nodes()` loops of pkg/scheduler rewritten to the seeded visiting order\nconst orderedLoops = %d\n\n// number of function entries that got a preemption point\nconst preemptPoints = %d\n\n// number of `<-cancel` waits of cmd/taskctl turned into simulator wait points\nconst waitPoints = %d\n\n// 1 when briandowns/spinner was rewritten to vsync locks\nconst spinnerRewritten = %d\n" % ("true" if nrw > 0 else "false", nrw, norder if os.environ.get("VERIF_NO_VSYNC") != "1" else 0, npre if os.environ.get("VERIF_NO_VSYNC") != "1" else 0, nwait if os.environ.get("VERIF_NO_VSYNC") != "1" else 0, nspin if os.environ.get("VERIF_NO_VSYNC") != "1" else 0))
 rep[os.path.join(repo, "internal/verifsim", "vsync_flag.go")] = os.path.join(gen, "vsync_flag.go")
 for f in sorted(os.listdir(os.path.join(verif, "glue"))):
     if f.endswith(".go"):
